@@ -137,6 +137,134 @@ def Call.exact (g : Geometry) (ncpu : Nat) (c : Call) : Bool :=
   (c.keyLen.isNone || c.keyLen == some g.keySize) &&
   (c.valueLen.isNone || c.valueLen == some (if c.cmd = bpf_NEXT_KEY then g.keySize else valueBytes g ncpu))
 
+/-! ### several program instances that share one map descriptor
+
+A map is declared once, as a class attribute: the descriptor object (`ArrayMap()`, `HashMap()`,
+`Dict(...)`) is shared by every instance of the class, of its subclasses, and of the same class
+instantiated with other sub-programs.  What `collect` finds differs per instance (a derived
+class adds variables, sub-programs bring their own), so each instance creates a map of its own
+geometry.  `ArrayMap.init` writes `self.size` on the shared descriptor; whatever is needed
+later has to be kept with the instance (`PerCPUReader.size`, the mmap, `TheDict.fd`). -/
+
+structure DictGeo where
+  keySizes : List Nat
+  valSizes : List Nat
+  size : Nat
+  lru : Bool
+deriving Repr
+
+/-- a family of program classes around one shared map descriptor -/
+inductive Family where
+  | array (base : List Nat) (derived subs : List (List Nat))
+      -- variables of the base class; what the k-th derived class adds; what the m-th sub-program class declares
+  | percpu (base : List Nat) (derived subs : List (List Nat))
+  | hashVars (base : List Nat)                              -- derived classes inherit the variables
+  | dict (base : DictGeo) (derived : List (Option DictGeo)) -- a derived class may override the Dict
+deriving Repr
+
+/-- one program instance: `cls = 0` the base class, `k + 1` the k-th derived class; the
+sub-program classes it was instantiated with (one sub-program object each, repeats allowed) -/
+structure Inst where
+  cls : Nat
+  subs : List Nat
+deriving Repr
+
+def pick (l : List (List Nat)) (k : Nat) : List Nat :=
+  match l[k]? with
+  | some s => s
+  | none => []
+
+/-- the variables `ArrayMap.collect` finds for one instance -/
+def varSizes (base : List Nat) (derived subs : List (List Nat)) (i : Inst) : List Nat :=
+  base ++ (match i.cls with | 0 => [] | k + 1 => pick derived k) ++ i.subs.flatMap (pick subs)
+
+def dictDecl (g : DictGeo) : Decl := .dict g.keySizes g.valSizes g.size g.lru
+
+/-- the declaration one instance sees: its OWN map -/
+def instDecl : Family → Inst → Decl
+  | .array b d s, i => .array (varSizes b d s i)
+  | .percpu b d s, i => .percpu (varSizes b d s i)
+  | .hashVars b, _ => .hashVars b
+  | .dict b d, i =>
+      match i.cls with
+      | 0 => dictDecl b
+      | k + 1 =>
+        match d[k]? with
+        | some (some g) => dictDecl g
+        | _ => dictDecl b
+
+/-- what an instance keeps in its own objects when `init` ran for it -/
+structure InstState where
+  decl : Decl                  -- what `collect` / the class gave: this instance's declaration
+  geo : Option Geometry        -- arguments of its `create_map`
+  readerSize : Nat             -- `PerCPUReader.size`, stored when the reader was made
+deriving Repr
+
+/-- `descSize`: `ArrayMap.size` on the shared descriptor, rewritten by every `init` -/
+structure World where
+  descSize : Nat
+  insts : List InstState
+deriving Repr
+
+def World.empty : World := ⟨0, []⟩
+
+inductive Event where
+  | create (i : Inst)                -- `Cls(prog_type, license, subprograms=[...])`
+  | use (idx : Nat) (a : Api)        -- an API call on the idx-th instance created so far
+deriving Repr
+
+/-- `self.size = self.collect(ebpf)` (array maps only) -/
+def collected (old : Nat) : Decl → Nat
+  | .array s => mapSize s
+  | .percpu s => mapSize s
+  | _ => old
+
+def createInst (f : Family) (w : World) (i : Inst) : World :=
+  let d := instDecl f i
+  let sz := collected w.descSize d
+  ⟨sz, w.insts ++ [⟨d, geometry d, sz⟩]⟩
+
+def percpuReadCall (size ncpu : Nat) : List Call :=
+  if size = 0 then [] else [⟨bpf_LOOKUP, some arr_key_len, some (size * ncpu)⟩]
+
+def percpuReadI (ncpu : Nat) (st : InstState) : List Call :=
+  match st.decl with
+  | .percpu _ => percpuReadCall st.readerSize ncpu     -- `self.size * self.map.cpu_no`
+  | d => calls ncpu d .percpuRead
+
+/-- the calls of one API call on one live instance: everything is taken from the instance -/
+def callsI (ncpu : Nat) (st : InstState) : Api → List Call
+  | .percpuRead => percpuReadI ncpu st
+  | a => calls ncpu st.decl a
+
+/-- one event: the new state and the map commands issued -/
+def stepEvent (f : Family) (ncpu : Nat) (w : World) : Event → World × List Call
+  | .create i => (createInst f w i, [])
+  | .use idx a =>
+      match w.insts[idx]? with
+      | some st => (w, callsI ncpu st a)
+      | none => (w, [])
+
+/-- a history: the commands issued, each with the instance it was issued for -/
+def runHist (f : Family) (ncpu : Nat) : World → List Event → List (Nat × Call)
+  | _, [] => []
+  | w, e :: es =>
+      let r := stepEvent f ncpu w e
+      (match e with
+       | .use idx _ => r.2.map (fun c => (idx, c))
+       | .create _ => []) ++ runHist f ncpu r.1 es
+
+/-- the instances a history creates, in order -/
+def createdOf : List Event → List Inst
+  | [] => []
+  | .create i :: es => i :: createdOf es
+  | .use _ _ :: es => createdOf es
+
+/-- the code before `fix: reading a per-CPU map used the size of the map of another program`:
+`PerCPUReader.read` sized its buffer from `self.map.size`, the descriptor's — the size of the
+instance created LAST -/
+def percpuReadCallShared (w : World) (ncpu : Nat) : List Call := percpuReadCall w.descSize ncpu
+
 /-- the code before `fix: reading a hash map variable overran the Python buffer`:
 `lookup_elem(fd, pack("B", count), self.fmt)` sized the buffer by the format -/
 def hvGetCallByFormat (fmtSize : Nat) : Call := ⟨bpf_LOOKUP, some hv_key_len, some fmtSize⟩
